@@ -210,7 +210,7 @@ theorem sat_walkCoreS (s : STGraph) (c : WalkCfg) (ub : Edge → Rat) (fr : Safe
 `optimize_with_max_safe_antichain_as_subset_constraints`: appending subset constraints each of which some layer
 traverses completely (a safe sequence is contained in some walk of every solution, C06 T5) keeps the LP
 satisfiable; only the `r` and `used_edge` columns get new values (`subsetAsg`). This is the completeness of
-the subset block (C10's `subset_constraint_complete_Statement`, for coverage `≤ 1`). -/
+the subset block for appended constraints (C10's `subset_constraint_complete` is the general form). -/
 theorem subset_variants_extend (s : STGraph) (c : WalkCfg) (ub : Edge → Rat) (a : Asg) (E : List (List Edge))
     (hsat : Sat a (walkCore s c ub))
     (hcons : ∀ con ∈ c.constraints, ∀ e ∈ con, e ∈ s.g.edges)
